@@ -226,22 +226,31 @@ func (am *Machine) GetOperationResult(operation client.Operation) (client.Operat
 	)
 	// handler gets a pointer to an operation, do necessary things
 	// and write a result (or an error) to .Result field of operation
-	switch fsm.State(operation.Type) {
-	case client.ReinitDKG:
-		err = am.handleReinitDKG(&operation)
-	case dkg_proposal_fsm.StateDkgCommitsAwaitConfirmations:
-		err = am.handleStateDkgCommitsAwaitConfirmations(&operation)
-	case dkg_proposal_fsm.StateDkgDealsAwaitConfirmations:
-		err = am.handleStateDkgDealsAwaitConfirmations(&operation)
-	case dkg_proposal_fsm.StateDkgResponsesAwaitConfirmations:
-		err = am.handleStateDkgResponsesAwaitConfirmations(&operation)
-	case dkg_proposal_fsm.StateDkgMasterKeyAwaitConfirmations:
-		err = am.handleStateDkgMasterKeyAwaitConfirmations(&operation)
-	case signing_proposal_fsm.StateSigningAwaitPartialSigns:
-		err = am.handleStateSigningAwaitPartialSigns(&operation)
-	default:
-		err = fmt.Errorf("invalid operation type: %s", operation.Type)
-	}
+	func() {
+		// a handler that panics on malformed input (e.g. a truncated ciphertext) must not take
+		// the machine down: the panic is reported like any other handler error
+		defer func() {
+			if r := recover(); r != nil {
+				err = fmt.Errorf("panic while handling operation: %v", r)
+			}
+		}()
+		switch fsm.State(operation.Type) {
+		case client.ReinitDKG:
+			err = am.handleReinitDKG(&operation)
+		case dkg_proposal_fsm.StateDkgCommitsAwaitConfirmations:
+			err = am.handleStateDkgCommitsAwaitConfirmations(&operation)
+		case dkg_proposal_fsm.StateDkgDealsAwaitConfirmations:
+			err = am.handleStateDkgDealsAwaitConfirmations(&operation)
+		case dkg_proposal_fsm.StateDkgResponsesAwaitConfirmations:
+			err = am.handleStateDkgResponsesAwaitConfirmations(&operation)
+		case dkg_proposal_fsm.StateDkgMasterKeyAwaitConfirmations:
+			err = am.handleStateDkgMasterKeyAwaitConfirmations(&operation)
+		case signing_proposal_fsm.StateSigningAwaitPartialSigns:
+			err = am.handleStateSigningAwaitPartialSigns(&operation)
+		default:
+			err = fmt.Errorf("invalid operation type: %s", operation.Type)
+		}
+	}()
 
 	// if we have error after handling the operation, we write the error to the operation, so we can feed it to a FSM
 	if err != nil {
